@@ -11,6 +11,12 @@ def ssum(v: Seq(Real), n: Int) -> Real:
 
 
 @spec
+def repl(x: Real, n: Int) -> Seq(Real):
+    """[x] * n"""
+    return () if n <= 0 else repl(x, n - 1) + (x,)
+
+
+@spec
 def isum(v: Seq(Int), n: Int) -> Int:
     return 0 if n <= 0 else isum(v, n - 1) + v[n - 1]
 
